@@ -259,7 +259,13 @@ func checkMessage(mt protoreflect.MessageType, seed, per uint64, salt int) {
 		ed := proto.UnmarshalOptions{AllowPartial: true}.Unmarshal(mut, mdyn)
 		rep.Counters["mutated_inputs"]++
 		if (eg == nil) != (ed == nil) {
-			bad("generated:decode-verdict-differs-from-dynamicpb:"+kindOf(), map[string]any{"message": name, "wire": fmt.Sprintf("%x", mut)})
+			if eg == nil && invalidUTF8InRepeatedStringExtension(mg) {
+				// the generated fast path has no UTF-8 validating coder for repeated string
+				// extensions (known finding of C13); the reflection path rejects
+				bad("generated:decode-verdict-differs-from-dynamicpb:repeated-string-extension-not-utf8-validated-on-fast-path", map[string]any{"message": name, "wire": fmt.Sprintf("%x", mut)})
+			} else {
+				bad("generated:decode-verdict-differs-from-dynamicpb:"+kindOf(), map[string]any{"message": name, "wire": fmt.Sprintf("%x", mut), "generated_error": fmt.Sprint(eg), "dynamic_error": fmt.Sprint(ed)})
+			}
 		} else if eg == nil {
 			a, _ := proto.MarshalOptions{Deterministic: true, AllowPartial: true}.Marshal(mg.Interface())
 			b, _ := proto.MarshalOptions{Deterministic: true, AllowPartial: true}.Marshal(mdyn)
@@ -425,4 +431,45 @@ func stripSourceRetention(m protoreflect.Message) {
 		}
 		return true
 	})
+}
+
+// invalidUTF8InRepeatedStringExtension reports whether m (or a message below
+// it) holds a repeated string extension that requires UTF-8 validation with an
+// invalid element.
+func invalidUTF8InRepeatedStringExtension(m protoreflect.Message) bool {
+	found := false
+	var walk func(m protoreflect.Message, depth int)
+	walk = func(m protoreflect.Message, depth int) {
+		if depth > 8 || found {
+			return
+		}
+		m.Range(func(fd protoreflect.FieldDescriptor, v protoreflect.Value) bool {
+			if fd.IsExtension() && fd.IsList() && fd.Kind() == protoreflect.StringKind {
+				if x, ok := fd.(interface{ EnforceUTF8() bool }); !ok || x.EnforceUTF8() {
+					for i := 0; i < v.List().Len(); i++ {
+						if s := v.List().Get(i).String(); strings.ToValidUTF8(s, "") != s {
+							found = true
+						}
+					}
+				}
+			}
+			if fd.Message() != nil {
+				switch {
+				case fd.IsList():
+					for i := 0; i < v.List().Len(); i++ {
+						walk(v.List().Get(i).Message(), depth+1)
+					}
+				case fd.IsMap():
+					if fd.MapValue().Message() != nil {
+						v.Map().Range(func(_ protoreflect.MapKey, mv protoreflect.Value) bool { walk(mv.Message(), depth+1); return true })
+					}
+				default:
+					walk(v.Message(), depth+1)
+				}
+			}
+			return !found
+		})
+	}
+	walk(m, 0)
+	return found
 }
